@@ -3146,6 +3146,83 @@ func scenRestartAfterInstall(e *engineA) error {
 	return e.finish()
 }
 
+func init() { scenarios["late-vote-results"] = scenLateVoteResults }
+
+// scenLateVoteResults (C01): a candidate's vote requests are answered in time,
+// but the goroutines that carry the answers to it are slow (held between the
+// answer and its delivery). The candidate, cut off by now, starts its next
+// election; then the answers of the previous one are delivered. They are
+// grants for a term that is over: nobody voted for the candidate in the term
+// it is campaigning for.
+func scenLateVoteResults(e *engineA) error {
+	e.prof = profiles["election"]
+	if err := e.boot(5); err != nil {
+		return err
+	}
+	e.cl.startInfoSampler(e.hb() / 2)
+	l := e.cl.leader()
+	if l == nil {
+		return fmt.Errorf("no leader")
+	}
+	for i := 0; i < 3; i++ {
+		e.cl.fsmOp(1, l, "update")
+	}
+	e.sleepHB(1, 2)
+	a := e.others(l)[e.rng.Intn(4)]
+	e.rc.emit(&ev.Rec{K: "fault", Op: "vote-results-delivered-one-election-late", Nid: a.nid})
+	hit := e.pc.hold(a.dir, "vote.result")
+	// count a's elections from here on
+	var elections int32
+	adir := a.dir
+	e.rc.setOnNodeEvent(func(dir string, r *ev.Rec) {
+		if dir == adir && r.K == "election" {
+			atomic.AddInt32(&elections, 1)
+		}
+	})
+	go e.cl.transfer(l, a.nid, 6*e.hb())
+	select {
+	case <-hit: // the first answer is in, and held
+	case <-time.After(40 * e.hb()):
+		e.rc.setOnNodeEvent(nil)
+		e.pc.release(a.dir, "vote.result")
+		return fmt.Errorf("no vote result reached the candidate")
+	}
+	e.sleepHB(0.2, 0.4) // the other answers arrive, and are held as well
+	if e.rng.Intn(2) == 0 {
+		// variant: nobody is cut off. The candidate hears of a higher term
+		// (one of the others campaigns in turn) and steps down; then the
+		// answers of its election are delivered
+		stepped := e.waitFor(60, func() bool {
+			ai, ok := a.info(false)
+			return ok && ai.State == raft.Follower
+		})
+		e.rc.setOnNodeEvent(nil)
+		e.pc.release(a.dir, "vote.result")
+		if !stepped {
+			return fmt.Errorf("the candidate did not step down")
+		}
+		e.sleepHB(3, 5)
+		e.startClients(2, map[string]int{"update": 3, "read": 1})
+		e.sleepHB(3, 6)
+		return e.finish()
+	}
+	e.isolate(a, true)
+	first := atomic.LoadInt32(&elections)
+	next := e.waitFor(40, func() bool { return atomic.LoadInt32(&elections) > first })
+	e.rc.setOnNodeEvent(nil)
+	e.pc.release(a.dir, "vote.result")
+	if !next {
+		e.isolate(a, false)
+		return fmt.Errorf("the candidate did not start another election")
+	}
+	e.sleepHB(1, 2)
+	e.isolate(a, false)
+	e.sleepHB(4, 6)
+	e.startClients(2, map[string]int{"update": 3, "read": 1})
+	e.sleepHB(3, 6)
+	return e.finish()
+}
+
 func init() { scenarios["late-install-response"] = scenLateInstallResponse }
 
 // scenLateInstallResponse (C15 / C17): a new node is brought up by snapshot
